@@ -108,8 +108,12 @@ def trsmall (line : String) : String :=
       if d < b.length ∨ d = 0 then "unsupported" else
       match stagesOf spec 0 d with
       | none => "bad-op"
-      | some st =>
-        if st.length = 0 ∨ st.length > 8 then "bad-stages" else showRes "err" (seqInverse st f b)
+      | some st0 =>
+        if st0.length = 0 ∨ st0.length > 8 then "bad-stages" else
+        -- the stage inverses run into intermediate buffers of `seqInvBufLen` bytes (`maxLen` does not depend on the sizes)
+        match stagesOf spec 0 (seqInvBufLen st0 d) with
+        | none => "bad-op"
+        | some st => showRes "err" (seqInverseDst st f b d)
     | _, _, _ => "bad-op"
   | _ => "bad-op"
 
